@@ -171,12 +171,14 @@ def range_case(draw):
     n = c["g"]["n"][c["axis"]]
     a = draw(axis_spec(n))
     b = draw(axis_spec(n))
-    if draw(st.integers(0, 3)) == 0 and not c["subs"]:
+    if draw(st.integers(0, 2)) == 0 and not c["subs"]:
         # integer-cornered region with fractional cells, one bound a whole number (given as int), the other not
         c["g"] = draw(gen.geom_int(ndim=nd, fractional=True))
         c["mask"] = ["all"]
         n = c["g"]["n"][c["axis"]]
-        a = ["v", draw(st.sampled_from([0, n]))]
+        lat_ = gen.lattice_of(c["g"])
+        whole = [i for i in range(n + 1) if lat_.vertex(c["axis"], i).denominator == 1] or [0, n]
+        a = ["v", draw(st.sampled_from(whole[: max(1, len(whole) - 1)]))]  # a whole-number vertex, mostly the lower bound
         b = draw(st.one_of(st.tuples(st.just("c"), st.integers(0, n - 1)).map(list),
                            st.tuples(st.just("f"), st.integers(0, n - 1), st.sampled_from([0.25, 0.5, 0.75])).map(list)))
         c["int_mix"] = True
@@ -187,6 +189,9 @@ def range_case(draw):
     c["sel"] = [a, b]
     c["container"] = draw(st.sampled_from(["tuple", "list", "array"]))
     c["int_bounds"] = draw(st.booleans())
+    if c.get("int_mix"):
+        c["int_bounds"] = True
+        c["container"] = draw(st.sampled_from(["tuple", "list"]))  # an array would convert both bounds to float
     return c
 
 
